@@ -10,7 +10,7 @@ TV   Keyword_Trace: sweep verdicts (reject iff reserved in force, else accepted 
      for every accepted tree (sweep, corpus, Grammar sentences with `begin_keywords regions) the
      identifiers in tree order against the region stack.
 """
-import random, json
+import random, json, zlib
 import vlib, svgen, corpus, tree
 
 VERSIONS = ["1364-1995", "1364-2001", "1364-2001-noconfig", "1364-2005", "1800-2005", "1800-2009", "1800-2012", "1800-2017"]
@@ -108,7 +108,7 @@ def run(tier, seed):
         ws = words if (full or not quick) else rng.sample(words, 40)
         for w in ws:
             for ti, (tpl, slot) in enumerate(TEMPLATES):
-                if not full and ti != (hash(w) % 4):
+                if not full and ti != (zlib.crc32(w.encode()) % 4):
                     continue
                 nid += 1
                 text = render_regions(pre, rng) + tpl.replace("{W}", w) + "\n" + closing(pre)
